@@ -1,0 +1,9 @@
+//go:build verif
+
+package types
+
+// SealCheck lets a verification harness built with the "verif" tag skip only the ethash seal computation, so that
+// synthetic header trees can be built without mining. It defaults to true (seal verified).
+var SealCheck = true
+
+func sealCheckEnabled() bool { return SealCheck }
